@@ -126,7 +126,7 @@ def cases(L, tier, seed):
                 yield c, save_load, dict(array=arr, stride=stride, compression=comp), ('roundtrip', str(arr.lengths if hasattr(arr, 'lengths') else arr.shape)[:60], stride, comp)
         if isinstance(arr, ra.RaggedArray) and len(arr.lengths) >= 9 and arr._data.ndim == 1:
             n = len(arr.lengths)
-            for keys in ([0, 1], [n - 1, 0], list(range(0, n, 3)), [n // 2, n // 2 + 1, 2]):
+            for keys in ([0, 1], [n - 1, 0], list(range(0, n, 3)), [n // 2, n // 2 + 1, 2], [2, 0, 2], [1, 1]):
                 for stride in (1, 2):
                     yield c, save_load, dict(array=arr, stride=stride, keys=keys), ('subset', n, keys[:5], stride)
     for n in [1, 2, 9, 10, 11, 99, 100, 101, 999, 1000, 1001, 9999, 10000, 10001, 20000] + ([] if tier == 'quick' else list(range(3, 20000, 487))):
@@ -138,6 +138,12 @@ def cases(L, tier, seed):
             yield BulkLoad(), bulk, dict(filenames=files, per_file=per, processes=procs, use_args=False), ('bulk', procs, stride)
             per = [dict(stride=stride, atom_indices=[0, 2, 4]) for _ in files]
             yield BulkLoad(), bulk, dict(filenames=files, per_file=per, processes=procs, use_args=True), ('bulk-atoms', procs, stride)
+        # a mix of single-frame requests and whole files of different lengths
+        for per in ([dict(frame=2), dict(), dict(), dict(frame=0), dict()], [dict(), dict(frame=1, atom_indices=[0, 2]), dict(atom_indices=[0, 2]), dict(atom_indices=[0, 2]), dict(frame=3, atom_indices=[0, 2])],
+                    [dict(frame=1, stride=1), dict(stride=2), dict(stride=2), dict(stride=2), dict(stride=2)]):
+            if 'atom_indices' in per[1] and 'atom_indices' not in per[0]:
+                per[0]['atom_indices'] = [0, 2]
+            yield BulkLoad(), bulk, dict(filenames=files, per_file=per, processes=procs, use_args=True), ('bulk-frames-and-files', procs, [sorted(p) for p in per])
         per = [dict() for _ in files]
         yield BulkLoad(), bulk, dict(filenames=files[::-1], per_file=per, processes=procs, use_args=True, lengths=[6, 1, 10, 3, 7]), ('bulk-lengths-hint', procs)
 
